@@ -76,6 +76,17 @@ class Ctx:
             for f in sorted(os.listdir(hdir)):
                 if f.endswith(".go"):
                     repl[os.path.join(REPO, "internal", "verifharness", f)] = os.path.join(hdir, f)
+            # add-only accessor files for existing packages: harness/overlay/<path below /repo>/<file>.go
+            # (all carry //go:build verif; nothing is written into /repo)
+            odir = os.path.join(hdir, "overlay")
+            for dp, _, fs in os.walk(odir):
+                for f in fs:
+                    if f.endswith(".go"):
+                        rel = os.path.relpath(os.path.join(dp, f), odir)
+                        target = os.path.join(REPO, rel)
+                        if os.path.exists(target):
+                            raise Abort("overlay file would replace an existing file of /repo: " + rel)
+                        repl[target] = os.path.join(dp, f)
             ov = os.path.join(BUILD, "overlay.json")
             with open(ov, "w") as fh:
                 json.dump({"Replace": repl}, fh)
@@ -128,7 +139,7 @@ class Ctx:
             fcntl.flock(lk, fcntl.LOCK_EX)
             if not os.path.exists(os.path.join(COQ, "Makefile")) or self._coqproject_stale():
                 sh([os.path.join(VERIF, "tools", "mkcoqproject.sh")], check=True)
-            p = sh(["make", "-C", COQ, "-j16"], timeout=3000)
+            p = sh(["make", "-C", COQ, "-j16", "-k"], timeout=3000)
         ok = p.returncode == 0
         self.make_log = p.stdout[-3000:] + p.stderr[-6000:]
         return ok
@@ -314,7 +325,12 @@ def main():
     try:
         mod = importlib.import_module("props." + a.pid)
         if a.replay:
-            return mod.replay(ctx, a.replay)
+            print(open(a.replay).read())
+            if hasattr(mod, "replay"):
+                return mod.replay(ctx, a.replay)
+            print("re-running the check that produced this replay (same seed/tier) ...")
+            rp = json.load(open(a.replay))
+            ctx.seed, ctx.tier = int(rp.get("seed", seed)), rp.get("tier", tier)
         ctx.grep_forbidden()
         if not ctx.coq_make():
             # a theory no longer compiles: every theorem file below decides which obligation broke
